@@ -202,3 +202,29 @@ def library_view(client):
                 els[en] = (e.label, val)
             out[dn][pn] = (kind, v.state, v.label, v.group, els)
     return out
+
+
+def client_write(client, k):
+    """The application writes to the k-th writable element the mirror currently lists (assign + submit()). Returns a
+    description, or None when there is nothing to write to. Sending a request must not touch the mirror: it changes when
+    the device answers."""
+    from indi.device import values
+
+    targets = []
+    for dn in sorted(client.list_devices()):
+        dev = client[dn]
+        for pn in sorted(dev.list_vectors()):
+            v = dev[pn]
+            kind = type(v).__name__[: -len("Vector")]
+            if kind == "Light":
+                continue
+            for en in sorted(v.list_elements()):
+                targets.append((dn, pn, en, kind))
+    if not targets:
+        return None
+    dn, pn, en, kind = targets[k % len(targets)]
+    val = {"Text": "written", "Number": "42", "Switch": "On", "BLOB": values.BLOB(b"written", ".bin")}[kind]
+    vec = client[dn][pn]
+    vec[en].value = val
+    vec.submit()
+    return f"{dn}.{pn}.{en} ({kind})"
